@@ -31,7 +31,7 @@ NOT_CLAIMED = {}
 
 def hist_tie(pid, quick=150, thorough=3000, extra=None):
     args = ['-monitors', pid, '-features', 'mixed'] + (extra or [])
-    return dict(name='TIE-D hist', vh='hist', model='hist', n=dict(quick=quick, thorough=thorough), args=dict(all=args), kinds=[pid])
+    return dict(name='TIE-D hist', vh='hist', model='hist', n=dict(quick=quick, thorough=thorough), args=dict(all=args), kinds=[pid], case_head='hist')
 
 
 HIST_RULE = ('histories of 1..12 operations generated online against the running implementation from one PRNG (VERIF_SEED): create (1-3 postings, accounts from a 6-name '
